@@ -54,3 +54,6 @@ Definition vcmp (c : comparison) : val := VZ (match c with Lt => -1 | Eq => 0 | 
 (* out-of-fuel (never reached: the theorems show the fuel suffices) shows up as a protocol error *)
 Definition vfuel {A} (f : A -> val) (o : option A) : val :=
   match o with Some a => f a | None => VBad end.
+(* a raw byte list as a Coq string (constant names) *)
+Definition string_of_bytes (l : list Z) : string :=
+  fold_right (fun b s => String (Ascii.ascii_of_N (Z.to_N b)) s) EmptyString l.
